@@ -69,15 +69,24 @@ func VH_C04_ClientAddress() {
 }
 
 // H04.e (certificate header): through the real middleware, a request from an
-// untrusted peer keeps its own TLS peer certificates: the Ssl-Client-Cert
-// header (arbitrary bytes) is never consulted.
+// untrusted peer keeps its own TLS peer certificates - or has none, on a
+// plain-HTTP listener or when it presented none: the Ssl-Client-Cert header
+// (arbitrary bytes) is never consulted.
 func VH_C04_PeerCertificateHeader() {
 	mw, err := Middleware([]string{"10.0.0.0/8"})
 	vhAssume(err == nil)
 	own := []*x509.Certificate{{}}
 	hdr, _ := vhXFF()
 	hdr.Set(sslClientCert, string(vhBytes("header-bytes", vhInt("header-len", 0, 3))))
-	req := &http.Request{RemoteAddr: "192.0.2.99:5000", Header: hdr, TLS: &tls.ConnectionState{PeerCertificates: own}}
+	req := &http.Request{RemoteAddr: "192.0.2.99:5000", Header: hdr}
+	// listener: plain HTTP (no TLS state), TLS without a client certificate, TLS with one
+	conn := vhConcretize(vhInt("connection", 0, 2), 3)
+	switch conn {
+	case 1:
+		req.TLS = &tls.ConnectionState{}
+	case 2:
+		req.TLS = &tls.ConnectionState{PeerCertificates: own}
+	}
 	var got []*x509.Certificate
 	var gotErr error
 	var seenAddr string
@@ -85,7 +94,11 @@ func VH_C04_PeerCertificateHeader() {
 		got, gotErr = PeerCertificates(r)
 		seenAddr = r.RemoteAddr
 	})).ServeHTTP(nil, req)
-	vhAssert(gotErr == nil && len(got) == 1 && got[0] == own[0], "untrusted-peer-keeps-its-own-certificates")
+	if conn == 2 {
+		vhAssert(gotErr == nil && len(got) == 1 && got[0] == own[0], "untrusted-peer-keeps-its-own-certificates")
+	} else {
+		vhAssert(gotErr == nil && len(got) == 0, "untrusted-peer-without-certificate-has-none")
+	}
 	vhAssert(seenAddr == "192.0.2.99", "untrusted-peer-address-recorded-as-is")
 	vhReach("served") // vh:require served
 }
